@@ -406,6 +406,33 @@ def run(ctx):
     check_classifiers(ctx, prog)
 
 
+def check_model_ventilation(ctx, prog, rule):
+    """Model::global_ventilation_rate = 3.6 * global_ventilation_l_s / (net volume of the habitable spaces inside the envelope): the building-wide rate the
+    U-value of a partition with an unconditioned space uses when the space gives none (shared with C06)"""
+    mv = prog.method("types::model::Model", None, "global_ventilation_rate")
+    msc = Scope(prog, mv)
+    rn = returned_nodes(mv.body)
+    ctx.require(len(rn) == 1, "Model::global_ventilation_rate: single return expected")
+    n = strip(msc._rw(rn[0][1]))
+    ctx.require(n[0] == "call" and short_callee(n[1]) == "unwrap_or_default" and strip(n[2][0])[0] == "call" and short_callee(strip(n[2][0])[1]) == "map",
+                "Model::global_ventilation_rate is not of the form l_s.map(|n| 3.6 n / V).unwrap_or_default()")
+    m = strip(n[2][0])
+    src = leaf_name(strip(m[2][0]))
+    r = closure_return(prog, msc, m[2][1], ("named", "nlps"))
+    key = rule + "|Model::global_ventilation_rate"
+    if r is None or r[0] != "bin" or r[1] != "Div":
+        ctx.violation(rule, key + "|formula", "rate is %s, expected 3.6 n / V" % (show(r)[:80] if r else "?"), mv.loc())
+        return
+    compare(ctx, rule, key + "|formula", strip(r[2]), "3.6 * n", LeafMap({"nlps": "n"}), None, mv.loc(), "numerator of the building-wide ventilation rate")
+    if not (src or "").endswith("meta.global_ventilation_l_s"):
+        ctx.violation(rule, key + "|source", "flow rate taken from %s" % src, mv.loc())
+    csc, ch = space_closure(prog, msc, strip(r[3]))
+    ctx.require(csc is not None and (ch.source_name() or "").endswith("self.spaces"), "Model::global_ventilation_rate: volume is not a sum over self.spaces")
+    lmM = LeafMap({"S[].multiplier": "m"}, [(r"^Space::area\(S\[\],self\.walls\)$|area\(S\[\],", "a"), (r"height_net\(S\[\],", "hn")])
+    predicate_by_value(ctx, rule, key + "|volume", csc, ["inside_tenv", "kind"], {"kind": KINDS},
+                       lambda a: a["inside_tenv"] and a["kind"] != "UNINHABITED", "a * hn * m", lmM, mv.loc())
+
+
 def check_classifiers(ctx, prog):
     tf = prog.method("types::common::Tilt", "convert::From", "from", inputs_contains="f32")
     hp = prog.method("bdl::envelope::walls::Wall", None, "position")
